@@ -3,6 +3,7 @@
 rev=""
 if [ "$1" = "-R" ]; then rev="-R"; shift; fi
 patch=$1; shift
+exec 9>/tmp/repo.lock; flock 9
 cd /repo || exit 2
 if ! git diff --quiet; then echo "/repo dirty"; exit 2; fi
 git apply $rev "$patch" || { echo "patch does not apply"; exit 2; }
